@@ -166,3 +166,62 @@ func scanFields(st string) []tlField {
 	}
 	return out
 }
+
+// tl2Decl is one declaration of a TL2 schema file, as far as an independent scan of the text can tell.
+type tl2Decl struct {
+	Name        string
+	Tag         string
+	Annotations []string
+	IsFunction  bool
+	IsAlias     bool
+	HasTemplate bool
+	File        string
+}
+
+// scanTL2 lists the declarations of a .tl2 file: `[@anno…] name[<params>][#magic] (= | <=> | fields… =>) … ;`
+func scanTL2(path string) ([]tl2Decl, error) {
+	b, err := os.ReadFile(path)
+	if err != nil {
+		return nil, err
+	}
+	text := stripTLComments(string(b))
+	var out []tl2Decl
+	for _, st := range strings.Split(text, ";") {
+		toks := strings.Fields(st)
+		d := tl2Decl{File: filepath.Base(path)}
+		i := 0
+		for i < len(toks) && strings.HasPrefix(toks[i], "@") {
+			d.Annotations = append(d.Annotations, strings.TrimPrefix(toks[i], "@"))
+			i++
+		}
+		if i >= len(toks) {
+			continue
+		}
+		name := toks[i]
+		if k := strings.IndexByte(name, '<'); k >= 0 {
+			d.HasTemplate = true
+			name = name[:k]
+		}
+		if k := strings.IndexByte(name, '#'); k >= 0 {
+			d.Tag = strings.ToLower(name[k+1:])
+			name = name[:k]
+		}
+		// `name <params>` written with a space
+		if i+1 < len(toks) && strings.HasPrefix(toks[i+1], "<") && toks[i+1] != "<=>" {
+			d.HasTemplate = true
+		}
+		d.Name = name
+		for _, t := range toks[i+1:] {
+			switch t {
+			case "=>":
+				d.IsFunction = true
+			case "<=>":
+				d.IsAlias = true
+			}
+		}
+		if d.Name != "" {
+			out = append(out, d)
+		}
+	}
+	return out, nil
+}
